@@ -17,7 +17,7 @@ import (
 	"verif/harness/rig"
 )
 
-var e2eNames = []string{"a", "b", "x y", "", "é"}
+var e2eNames = []string{"a", "b", "x y", "", "é", "not", "Or"}
 var e2eVals = []string{"", "a", "ab", "b"}
 
 func e2eBasic(r *rand.Rand) *ref.Node {
